@@ -1,4 +1,5 @@
 import WD.Model.Pipeline
+import WD.Model.PipelineBurst
 import WD.Spec.PipelineSpec
 import WD.Driver.Proto
 namespace WD.Driver
@@ -88,6 +89,44 @@ def pipeLine (ts : List String) : String :=
         (fun (e : Ent) => showP e.path ++ (if e.isDir then "/" else "")))
       some (" ; ".intercalate (evs.map (fun l => ",".intercalate (canonEvents l))) ++ " | tree=" ++ showList tree ++
             s!" stopped={b01 fin.stopped} crashed={b01 fin.crashed} valid={b01 allValid}")).getD "bad-op"
+  | _ => "bad-op"
+
+/-- `pipeburst <recursive> <full> I <n> op*n B <b> (<m> op*m)*b` : every group of operations is one burst, read in one
+    batch after its last operation (`Sys.burst`); per burst: the delivered events and whether the burst consists of
+    valid simple operations only (the regime of `burst_simple`) -/
+def pipeBurstLine (ts : List String) : String :=
+  match ts with
+  | rec :: full :: "I" :: n :: rest =>
+    (do
+      let n ← n.toNat?
+      if rest.length < n then none else
+      let initOps ← (rest.take n).mapM pipeParseOp
+      let (b, rest2) ← (match rest.drop n with | "B" :: b :: r => b.toNat?.map (fun b => (b, r)) | _ => none)
+      let rec groups (fuel k : Nat) (r : List String) : Option (List (List Op)) :=
+        match fuel, k with
+        | _, 0 => if r.isEmpty then some [] else none
+        | 0, _ => none
+        | f+1, k+1 =>
+          match r with
+          | m :: r' => do
+            let m ← m.toNat?
+            if r'.length < m then none else
+            let ops ← (r'.take m).mapM pipeParseOp
+            let more ← groups f k (r'.drop m)
+            some (ops :: more)
+          | [] => none
+      let bursts ← groups (b + 1) b rest2
+      let k0 : Kern := ⟨[], 1, 1⟩
+      let fs0 := initOps.foldl (fun fs op => (kernelOp fs k0 op).1) FS.init
+      let s0 := Sys.start fs0 (bool01 rec) (bool01 full)
+      let (fin, outs) := bursts.foldl (fun (acc : Sys × List String) ops =>
+          let simple := allSimpleB acc.1 ops
+          let (s1, evs) := acc.1.burst ops
+          (s1, acc.2 ++ [",".intercalate (canonEvents evs) ++ s!" simple={b01 simple}"])) (s0, [])
+      let tree := sortStr ((fin.fs.ents.filter (fun (e : Ent) => isUnder ["W"] e.path)).map
+        (fun (e : Ent) => showP e.path ++ (if e.isDir then "/" else "")))
+      some (" ; ".intercalate outs ++ " | tree=" ++ showList tree ++
+            s!" stopped={b01 fin.stopped} crashed={b01 fin.crashed}")).getD "bad-op"
   | _ => "bad-op"
 
 /-- canonical rendering of the library's two watch maps (watch descriptors are compared through the pairing they
